@@ -121,6 +121,9 @@ type loopFrame struct {
 	keys  map[string]map[string]bool // key -> set of object terms ("*" = whole key)
 	sorts map[string]string          // sort of each key as registered in the dry pass (a key first used inside the body is not registered yet when the header is reached in the real pass)
 	all   bool
+	// writerCall: some call in the body may run a declared writer of a type's private fields (otherwise the
+	// calls in the body keep private fields, and so does the havoc at the loop head)
+	writerCall bool
 }
 
 type frame struct {
@@ -522,6 +525,7 @@ func (f *FnCtx) runTop() {
 	fr.sweepDeadParamStores(st)
 	fr.sweepNoWait(st)
 	fr.sweepFramedOutput(st)
+	fr.sweepNoSessionData(st)
 	ret := fr.run(st)
 	if ret == nil {
 		return // never returns normally
@@ -1093,6 +1097,7 @@ func (fr *frame) loopHeader(h *ssa.BasicBlock, st *bstate) *bstate {
 		if !f.dry && lf != nil && lf.all {
 			// the body calls unknown code: that part of the frame is a call havoc; the body's own writes are havocked on top
 			nh.byCall = true
+			nh.keepPrivate = !lf.writerCall
 			own := map[string]bool{}
 			for k := range lf.keys {
 				if f.hs.sorts[k] == "" && lf.sorts[k] != "" {
@@ -1369,6 +1374,9 @@ func collectWrites(f *FnCtx, h, stop *Heap, lf *loopFrame, seen map[*Heap]bool) 
 				if h.loopSet.all {
 					lf.all = true
 				}
+				if h.loopSet.writerCall {
+					lf.writerCall = true
+				}
 				for k, m := range h.loopSet.keys {
 					for o := range m {
 						add(k, o)
@@ -1378,6 +1386,9 @@ func collectWrites(f *FnCtx, h, stop *Heap, lf *loopFrame, seen map[*Heap]bool) 
 				// inner loop whose back edge was never reached: nothing
 			} else {
 				lf.all = true
+				if !h.keepPrivate {
+					lf.writerCall = true
+				}
 			}
 			h = h.parent
 		case "merge":
@@ -2761,6 +2772,44 @@ func (fr *frame) sweepNoStdout(st *bstate) {
 					f.oblige(st, fmt.Sprintf("%s#standard-output-left-to-the-stdio-transport", fnShortName(fr.fn)), "safety", f.sweepTags, "false",
 						"os.Stdout is used here; in a stdio server that is the protocol stream", posStr(f.e.fset, in.Pos()))
 				}
+			}
+		}
+	}
+}
+
+// sweep kind "nosessiondata": the function does not read per-session data (Session.GetData).  What the shared
+// managers answer is a function of the registrations and the request; the data a transport stored in its session
+// (negotiated revision, transport-private entries) differs between transports and some have no session at all,
+// so an answer that depends on it is not the same answer everywhere.  Structural.
+func (fr *frame) sweepNoSessionData(st *bstate) {
+	f := fr.f
+	if !f.sweep["nosessiondata"] || f.dry {
+		return
+	}
+	for _, b := range fr.fn.Blocks {
+		for _, in := range b.Instrs {
+			c, ok := in.(ssa.CallInstruction)
+			if !ok {
+				continue
+			}
+			cc := c.Common()
+			name := ""
+			if cc.IsInvoke() {
+				if n, ok := cc.Value.Type().(*types.Named); ok && n.Obj().Name() == "Session" && n.Obj().Pkg() != nil && inModule(n.Obj().Pkg()) {
+					name = cc.Method.Name()
+				}
+			} else if sc := cc.StaticCallee(); sc != nil && sc.Signature.Recv() != nil && sc.Pkg != nil && inModule(sc.Pkg.Pkg) {
+				rt := sc.Signature.Recv().Type()
+				if pt, ok := rt.(*types.Pointer); ok {
+					rt = pt.Elem()
+				}
+				if n, ok := rt.(*types.Named); ok && strings.HasSuffix(strings.ToLower(n.Obj().Name()), "session") {
+					name = sc.Name()
+				}
+			}
+			if name == "GetData" {
+				f.oblige(st, fmt.Sprintf("%s#answer-does-not-depend-on-session-data", fnShortName(fr.fn)), "safety", f.sweepTags, "false",
+					"per-session data is read here; the shared managers answer from the registrations and the request alone", posStr(f.e.fset, in.Pos()))
 			}
 		}
 	}
